@@ -115,6 +115,17 @@ def gen_tables(ctx, r, n_random):
     for cn in COL_NAMES:
         out.append(("column-name", Table(("t", None, "t"), [Col(cn, "int", ["11"], [], "'n'"), Col("z", "text", None, [], None)], [], [], [], None)))
     out.append(("partitioned", Table(("t", None, "t"), base(), [], [], [Col("dt", "string", None, [], "'day'"), Col("`hr`", "int", None, [], None)], "'p'")))
+    # partition columns of EVERY catalogued type, with and without parameters, by both routes: a parsed PARTITIONED BY and append_partition_by_column
+    for name, lo, hi in cat:
+        for want in (False, True):
+            pc = Col("`p`", r.choice([name, name.lower()]), params_for(r, name, lo, hi, want), [], r.choice([None, "'part'"]))
+            out.append(("partition-type:parsed", Table(("t", None, "t"), base(), [], [], [Col("dt", "string", None, [], None), pc], None)))
+            out.append(("partition-type:helper", Table(("t", None, "t"), base(), [], [], [], None), [("apc", pc)]))
+            out.append(("partition-type:helper", Table(("t", None, "t"), base(), [], [], [Col("dt", "string", None, [], None)], None), [("ct", 0), ("apc", pc), ("stn", NEW_NAMES[1])]))
+    for name, ps in [("datetime", ["3"]), ("timestamp", ["6"]), ("time", ["3"]), ("double", ["10", "2"])]:
+        pc = Col("`p`", name, ps, [], None)
+        out.append(("partition-type:parsed", Table(("t", None, "t"), base(), [], [], [pc], None)))
+        out.append(("partition-type:helper", Table(("t", None, "t"), base(), [], [], [], None), [("apc", pc)]))
     for _ in range(n_random):
         cols, used = [], set()
         for i in range(1 + r.below(6)):
@@ -136,13 +147,17 @@ def gen_tables(ctx, r, n_random):
         keys = [r.choice(KEYS) for _ in range(r.choice([0, 0, 1, 2]))]
         opts = [r.choice(OPTIONS) for _ in range(r.choice([0, 1, 1, 2]))]
         parts = [Col("dt", "string", None, [], r.choice([None, "'p'"]))] if r.chance(0.12) else []
+        if r.chance(0.08):
+            pn, plo, phi = r.choice(cat)
+            parts.append(Col("`pk`", recase(r, pn), params_for(r, pn, plo, phi, True), [], r.choice([None, "'pc'"])))
         tn = r.choice(TABLE_NAMES) if not r.chance(0.04) else r.choice(DOTTED_TABLE_NAMES)
         out.append(("random", Table(tn, cols, keys, opts, parts, r.choice([None, None] + COMMENTS), ine=r.chance(0.2))))
     return out
 
 
 ADD_COLS = [Col("etl_time", "string", None, [], "'load time'"), Col("`z`", "BIGINT", None, [], None), Col("`p q`", "decimal", ["18", "4"], ["NOT NULL"], "'amount'"),
-            Col("k", "varchar", ["64"], ["DEFAULT ''"], None), Col("g", "GEOMETRY", None, [], None), Col("dt", "string", None, [], "'partition day'"), Col("`hr`", "int", None, [], None)]
+            Col("k", "varchar", ["64"], ["DEFAULT ''"], None), Col("g", "GEOMETRY", None, [], None), Col("dt", "string", None, [], "'partition day'"), Col("`hr`", "int", None, [], None),
+            Col("stat_hour", "tinyint", ["2"], [], "'hour'"), Col("shard", "int", ["11"], ["NOT NULL"], None), Col("ts", "datetime", ["3"], [], None), Col("c3", "char", ["3"], [], None)]
 NEW_NAMES = [("-", None, "t_hive"), ("ods", "ods", "t"), ("s 1", "s 1", "u"), ("-", None, "a.b"), ("db", "db", "x.y")]
 
 
@@ -325,7 +340,7 @@ def run(ctx):
     tables = gen_tables(ctx, r, n_random)
     n_sys = len(tables) - n_random
     ctx.cov["rule"] = ("%d systematic MySQL CREATE TABLE statements (every one of the %d catalogued types × {without, with parameters} × 3 letter cases, %d types outside the "
-                       "catalogue, %d column attributes, %d key / constraint forms, %d table options, %d comment shapes, %d table-name and %d column-name shapes, PARTITIONED BY) "
+                       "catalogue, %d column attributes, %d key / constraint forms, %d table options, %d comment shapes, %d table-name and %d column-name shapes, PARTITIONED BY, partition columns of every catalogued type with and without parameters via a parsed PARTITIONED BY and via append_partition_by_column) "
                        "each with 4 fixed helper sequences, + %d random tables (1–6 columns, 0–3 attributes each, keys, options, comments) with random helper sequences of 0–4 "
                        "calls; model and implementation agree on views, printed texts and re-parsed views; oracle on the implementation: parser view = generated structure, "
                        "helpers change exactly their component, Hive re-parse = property view (mapped types, parameters only for DECIMAL/VARCHAR/CHAR), MySQL re-parse = edited view. "
@@ -334,15 +349,18 @@ def run(ctx):
     ctx.cov["validated_only"] = ["print-for-Hive / re-parse for arbitrary tables (theorems cover the helper algebra, the column printer and kernel-evaluated examples; the general "
                                  "round trip needs the lexer on printed text)", "agreement of the typed helper models with node.py (sampled; tied to the C11 Val-level models by theorem)"]
     cases = []
-    for i, (kind, t) in enumerate(tables):
-        if i < n_sys:
+    for i, entry in enumerate(tables):
+        kind, t = entry[0], entry[1]
+        if len(entry) > 2:
+            cases.append((kind, t, entry[2]))
+        elif i < n_sys:
             for k in range(4):
                 cases.append((kind, t, gen_calls(r, k)))
         else:
             cases.append((kind, t, gen_calls(r)))
     reqs = ["CONV %s %s" % (E.enhex(t.text(r)), E.enhex(";".join(call_text(c) for c in calls))) for _, t, calls in cases]
     res, _ = ctx.corr(reqs, stream="conv")
-    types_seen = set()
+    types_seen, part_types_seen = set(), set()
     for (kind, t, calls), req, (_, a, _) in zip(cases, reqs, res):
         js = judge(t.view(), [ser_call(c) for c in calls], a, hmap, catalogued)
         ctx.count("table:" + kind + (":ok" if not js else ":" + js[0][0].split(":")[0]))
@@ -350,12 +368,15 @@ def run(ctx):
             ctx.count("helper:" + c[0])
         for c in t.cols:
             types_seen.add((c.type_name.upper(), c.params is not None))
+        for c in list(t.parts) + [x[1] for x in calls if x[0] == "apc"]:
+            part_types_seen.add((c.type_name.upper(), c.params is not None))
         for sig, detail in js:
             pfam.report(ctx, sig, {"kind": "input", "entry": "ASTCreateTableStatement.source / change_type", "dialect": "MYSQL", "input": E.unhex(req.split(" ")[1]),
                                    "calls": [ser_call(c) for c in calls], "declares": t.view(), "request": req, "observed": a[:700], "detail": detail[:700],
                                    "oracle": "c18: same table name, columns in order with comments, mapped types (parameters only for DECIMAL/VARCHAR/CHAR), partition columns, table comment; "
                                              "helper edits show up in the printed DDL and nowhere else", "how_found": "stream conv (%s)" % kind})
     ctx.cov["distribution"]["catalogued (type, with parameters) pairs exercised"] = len([x for x in types_seen if x[0] in catalogued])
+    ctx.cov["distribution"]["catalogued (type, with parameters) pairs exercised as partition column"] = len([x for x in part_types_seen if x[0] in catalogued])
     for (kind, t, calls), (_, a, b) in list(zip(cases, res))[-3:]:
         ctx.sample({"kind": kind, "ddl": t.text()[:200], "calls": [call_text(c) for c in calls], "impl": a[:240], "model": b[:240]})
     # known findings
